@@ -543,7 +543,7 @@ func replayShared(b c20behaviour, progs map[string][]c20op, mk func(g *gates) sh
 		switch act {
 		case "call":
 			// the previous operation of g must have returned (and been logged) before its next one is called
-			deadline := time.After(30 * time.Second)
+			deadline := time.After(5 * time.Minute)
 			for inflight[g] {
 				select {
 				case ev := <-gt.arrive:
@@ -572,7 +572,7 @@ func replayShared(b c20behaviour, progs map[string][]c20op, mk func(g *gates) sh
 		}
 	}
 	// let everything run to its end
-	deadline := time.After(60 * time.Second)
+	deadline := time.After(5 * time.Minute)
 	for nDone < total {
 		for g, at := range atGate {
 			if at {
@@ -874,7 +874,7 @@ func c20Independent(c *core.Ctx) {
 		}
 		// wait until every call is at its first gate
 		at := map[string]bool{}
-		timeout := time.After(20 * time.Second)
+		timeout := time.After(5 * time.Minute)
 		for len(at) < len(calls) {
 			select {
 			case ev := <-gt.arrive:
@@ -893,7 +893,7 @@ func c20Independent(c *core.Ctx) {
 			case <-gt.arrive:
 			case r := <-results[ci]:
 				results[ci] <- r
-			case <-time.After(20 * time.Second):
+			case <-time.After(5 * time.Minute):
 				bad[si] = "a verification made no progress"
 				gt.releaseAll()
 				return
@@ -906,7 +906,7 @@ func c20Independent(c *core.Ctx) {
 				if !r.ok {
 					bad[si] = fmt.Sprintf("verification %d (document %s) failed in schedule %v although it succeeds alone: %v", ci, docs[calls[ci]].name, scheds[si], r.err)
 				}
-			case <-time.After(20 * time.Second):
+			case <-time.After(5 * time.Minute):
 				bad[si] = "a verification did not return"
 			}
 		}
